@@ -2,7 +2,6 @@ package c14
 
 import (
 	"fmt"
-	"os"
 	"sort"
 	"strings"
 	"testing"
@@ -569,9 +568,6 @@ func (e *seqEnv) invariant(t *rapid.T) {
 }
 
 func TestSequentialModel(t *testing.T) {
-	if os.Getenv("C14_DEV_ONLY") == "conc" { // development switch for sensitivity runs of the concurrent test
-		t.Skip("C14_DEV_ONLY=conc")
-	}
 	rapid.Check(t, func(t *rapid.T) {
 		p := sim.GenParams(t, 5, 8)
 		timing := rapid.SampledFrom([]string{"far", "far", "near", "near", "soon"}).Draw(t, "ceremonyTiming")
